@@ -178,7 +178,9 @@ class ModuleAstInfo:
         """
         return (
             lineno
-            for lineno, line in enumerate(source_code.splitlines(), start=1)
+            # Only these are line boundaries for the compiler; str.splitlines() also
+            # splits at form feeds and other separators and would shift the numbers.
+            for lineno, line in enumerate(re.split(r"\r\n|\r|\n", source_code), start=1)
             if pattern.search(line) is not None
         )
 
